@@ -386,6 +386,9 @@ class DataFrameSchemaBackend(PandasSchemaBackend):
                 or col_name in column_info.regex_match_patterns
             ) and col_name not in column_info.absent_column_names:
                 if col.name != col_name:
+                    # validate the column under its key without renaming
+                    # the component that belongs to the schema
+                    col = copy.copy(col)
                     col.name = col_name
                 schema_components.append(col)
 
